@@ -43,8 +43,12 @@ def gen_simple(rng):
     return ("simple-len", mn, mx)
 
 
+_ATTR = [0]
+
+
 def gen_attr(rng, k, simple_names):
-    a = {"name": "at%d" % k, "use": rng.choice([None, "optional", "required", "required"]), "fixed": None, "type": None, "inline": None}
+    _ATTR[0] += 1          # attribute names are unique in the whole schema (an extension must not redeclare one of its base)
+    a = {"name": "at%d" % _ATTR[0], "use": rng.choice([None, "optional", "required", "required"]), "fixed": None, "type": None, "inline": None}
     m = rng.random()
     if m < 0.2:
         a["fixed"] = rng.choice(["f1", "42", "on"])
